@@ -620,8 +620,10 @@ AcceptWelcome(c, w) ==
     /\ LET g == wl[w].g IN
        /\ cl' = [cl EXCEPT ![c][g] = [@ EXCEPT !.mls = "ok", !.chain = wl[w].chain, !.pend = NoE, !.props = {},
                                               !.past = <<>>, !.consumed = {}, !.sentH = 0, !.sentA = 0,
+                                              \* state Active, rotation obligation, and the record re-synced from the joined group
                                               !.rec = IF @.st = "none" THEN @
-                                                      ELSE [@ EXCEPT !.st = "active", !.su = TRUE]]]
+                                                      ELSE [@ EXCEPT !.st = "active", !.su = TRUE,
+                                                                     !.epoch = EpochOf(g, wl[w].chain), !.data = GS(g, wl[w].chain)]]]
        /\ welc' = [welc EXCEPT ![c][w] = "accepted"]
        /\ hist' = [hist EXCEPT !.wreset = IF cl[c][g].mls # "none" THEN @ \cup {<<c, g>>} ELSE @]
     /\ UNCHANGED <<ginfo, ev, proc, msgs, snapq, hyd, withdrawn, wl, pwelc>>
